@@ -327,3 +327,235 @@ def dominates_nonerror(body, a, b, err=None):
     if b not in ba.live:
         return False
     return ba.path([0], [b], avoid=frozenset(err) | {a}, incl=True) is None
+
+
+# ------------------------------------------------------------------------------------------------
+# name-free access paths (added for the builder rules C04/C05/C11/C13)
+
+def _own_fields(p):
+    """Field projections of a place without the closure-environment pseudo fields."""
+    return [f for f in place_fields(p) if not f.startswith("upvar.")]
+
+
+def origin_paths(body, l, depth=120):
+    """Backward slice of local `l` through *direct* steps only (moves, borrows, derefs, field projections,
+    casts and the identity-preserving calls of core.IDENTITY_CALLS), remembering the field projections met on
+    the way. Returns a set of (root, fields): root is ('upvar', idx) for a captured variable of a closure /
+    coroutine body, ('param', n) for a parameter, ('def', n) for a local whose definition is not a direct step
+    (a non-identity call, an aggregate, arithmetic); `fields` is the tuple of canonical 'Type.field' names
+    applied to the root, outermost object first. Independent of local-variable names and of the number of
+    temporaries / reborrows between the root and `l` (e.g. after a helper was inlined)."""
+    from core import IDENTITY_CALLS
+    ba = BA.of(body)
+    out = set()
+    seen = set()
+    todo = [(l, ())]
+    while todo and len(seen) < depth * 4:
+        x, suffix = todo.pop()
+        if x is None or (x, suffix) in seen:
+            continue
+        seen.add((x, suffix))
+        ds = [d for d in ba.defs.get(x, []) if d[0] in ("stmt", "call", "yield")]
+        if not ds:
+            if 1 <= x <= body.arg_count:
+                out.add((("param", x), suffix))
+            else:
+                out.add((("def", x), suffix))
+            continue
+        if 1 <= x <= body.arg_count:
+            out.add((("param", x), suffix))
+        for d in ds:
+            if d[0] == "stmt":
+                rv = d[3]
+                ps = rvalue_places(rv)
+                if rv["k"] in ("use", "ref", "cast", "rawptr") and len(ps) == 1:
+                    p = ps[0]
+                    nf = tuple(_own_fields(p)) + suffix
+                    u = upvar_index(p)
+                    if u is not None:
+                        out.add((("upvar", u[0]), nf))
+                    else:
+                        todo.append((p["l"], nf))
+                else:
+                    out.add((("def", x), suffix))
+            elif d[0] == "call":
+                t = d[2]
+                if any(IDENTITY_CALLS.fullmatch(p) for p in callee_paths(t)) and t["args"]:
+                    for a in t["args"]:
+                        p = op_place(a)
+                        if p is None:
+                            continue
+                        nf = tuple(_own_fields(p)) + suffix
+                        u = upvar_index(p)
+                        if u is not None:
+                            out.add((("upvar", u[0]), nf))
+                        else:
+                            todo.append((p["l"], nf))
+                else:
+                    out.add((("def", x), suffix))
+            else:
+                out.add((("def", x), suffix))
+    return out
+
+
+def operand_origin_paths(body, o):
+    """origin_paths of a call operand (the operand may itself be a projected place)."""
+    p = op_place(o)
+    if p is None:
+        return set()
+    u = upvar_index(p)
+    if u is not None:
+        return {(("upvar", u[0]), tuple(_own_fields(p)))}
+    return {(root, fields + tuple(_own_fields(p))) for (root, fields) in origin_paths(body, p["l"])}
+
+
+def captured_from(parent, closure_key):
+    """{upvar index: set of parent locals} for the closure / coroutine `closure_key` constructed in `parent`:
+    the parent locals each captured variable is (a borrow / move of), whatever the variable is called."""
+    pba = BA.of(parent)
+    out = {}
+    for (bb, j, dest, k, ops) in closure_sites(parent, closure_key):
+        for n, o in enumerate(ops):
+            l = op_local(o)
+            if l is None:
+                continue
+            s = out.setdefault(n, set())
+            s.add(l)
+            s.update(pba.ref_chain(l))
+    return out
+
+
+def upvars_bound_to(parent, closure_key, pred):
+    """Upvar indices of `closure_key` whose captured parent local satisfies pred(local)."""
+    return {n for n, ls in captured_from(parent, closure_key).items() if any(pred(l) for l in ls)}
+
+
+def in_set(body, tset):
+    """Predicate on locals of `body`: the local, or what it borrows / moves from, is in `tset`."""
+    ba = BA.of(body)
+    return lambda l: l is not None and (l in tset or any(x in tset for x in ba.ref_chain(l)))
+
+
+def struct_fields_of(body, l):
+    """If local `l` is (a move / borrow of) a struct value built by one aggregate statement of this body:
+    [(canonical 'Type.field', operand)], else None. (A parameter struct bundling several arguments.)"""
+    ba = BA.of(body)
+    for x in ba.ref_chain(l):
+        ds = [d for d in ba.defs.get(x, []) if d[0] in ("stmt", "call", "yield")]
+        if len(ds) == 1 and ds[0][0] == "stmt":
+            rv = ds[0][3]
+            if rv["k"] == "agg" and rv.get("agg") == "adt" and rv.get("fields") and len(rv["fields"]) == len(rv["ops"]):
+                return [("%s.%s" % (rv["adt"], f), o) for f, o in zip(rv["fields"], rv["ops"])]
+    return None
+
+
+def call_arg_roles(caller, bb, pred):
+    """Which parameters of the callee receive, at call site `bb` of `caller`, a value satisfying
+    pred(caller local)? Returns {(param_no, field_prefix)}: param_no is 1-based; field_prefix is () for the
+    whole parameter or ('Type.field',) when the argument is a struct built at the call site and only that field
+    holds such a value. Independent of parameter order/count and of bundling arguments into a struct."""
+    t = caller.blocks[bb]["term"]
+    out = set()
+    for n, a in enumerate(t["args"]):
+        l = op_local(a)
+        if l is None:
+            continue
+        sf = struct_fields_of(caller, l)
+        if sf is not None:
+            for fname, o in sf:
+                if pred(op_local(o)):
+                    out.add((n + 1, (fname,)))
+        elif pred(l):
+            out.add((n + 1, ()))
+    return out
+
+
+def role_src(roles):
+    """(seeds, src_place) for core.taint from a set of (param_no, field_prefix) roles."""
+    seeds = {n for (n, pref) in roles if not pref}
+    prefs = [(n, pref) for (n, pref) in roles if pref]
+
+    def src_place(p):
+        if not prefs:
+            return False
+        fs = tuple(_own_fields(p))
+        return any(p["l"] == n and fs[:len(pref)] == pref for (n, pref) in prefs)
+    return seeds, src_place
+
+
+def role_taint(body, roles, mode="direct", through=None):
+    """Locals of `body` holding (direct aliases of / values derived from) the parameter roles."""
+    if not roles:
+        return set()
+    seeds, src_place = role_src(roles)
+    return taint(body, seeds=seeds, src_place=src_place, mode=mode, through=through)
+
+
+def role_roots(body, l, roles):
+    """Does local `l` go back (direct steps only) to one of the parameter roles?"""
+    for (root, fields) in origin_paths(body, l):
+        if root[0] != "param":
+            continue
+        for (n, pref) in roles:
+            if root[1] == n and tuple(fields[:len(pref)]) == tuple(pref):
+                return True
+    return False
+
+
+def upvar_taint(body, upvars, mode="direct", through=None):
+    """Locals of a closure / coroutine body derived from the captured variables with the given indices."""
+    if not upvars:
+        return set()
+    return taint(body, src_place=lambda p: (upvar_index(p) or (None, None))[0] in upvars, mode=mode, through=through)
+
+
+def bool_value_calls(body, o, depth=12):
+    """Calls whose boolean result may be the value of operand `o`: follows copies, `!` and locals assigned on
+    several paths (the materialised form of `a || f()` / `a && f()` / `let x = ..; if x`: one definition per
+    short-circuit side, constants on the sides decided without the call). Returns [(negated, call_bb, term)]."""
+    ba = BA.of(body)
+    out = []
+    seen = set()
+    todo = [(o, False, 0)]
+    while todo:
+        o, neg, d = todo.pop()
+        p = op_place(o)
+        if p is None or p["p"] or d > depth:
+            continue
+        if (p["l"], neg) in seen:
+            continue
+        seen.add((p["l"], neg))
+        for df in ba.defs.get(p["l"], []):
+            if df[0] == "call":
+                out.append((neg, df[1], df[2]))
+            elif df[0] == "stmt":
+                rv = df[3]
+                if rv["k"] == "use":
+                    todo.append((rv["op"], neg, d + 1))
+                elif rv["k"] == "unop" and rv["op"] == "Not":
+                    todo.append((rv["a"], not neg, d + 1))
+    return out
+
+
+def switches_on_call_value(body, rx):
+    """Like BA.switches_on_call, but the tested boolean may reach the switch through a local that is assigned on
+    several paths: [(switch_bb, true_target, false_target, call_bb)], targets w.r.t. the call's result."""
+    if isinstance(rx, str):
+        rx = re.compile(rx)
+    ba = BA.of(body)
+    out = []
+    for i in sorted(ba.live):
+        t = body.blocks[i]["term"]
+        if t["t"] != "switch" or t["discr_ty"] != "bool":
+            continue
+        f_t = None
+        for v, tg in t["arms"]:
+            if v == 0:
+                f_t = tg
+        if f_t is None:
+            continue
+        t_t = t["otherwise"]
+        for (neg, cbb, ct) in bool_value_calls(body, t["discr"]):
+            if call_matches(ct, rx):
+                out.append((i, f_t, t_t, cbb) if neg else (i, t_t, f_t, cbb))
+    return out
